@@ -275,6 +275,26 @@ func runC09(r *Rand, tier string, o *Out) {
 			checkFixedPoint(o, string(b), res)
 		}
 	}
+	// a struct followed by a second definition (or by half of one): one definition per struct is the grammar
+	for i := 0; i < 60; i++ {
+		n := 1 + r.Intn(3)
+		st := &sigT{kind: 'S', name: []string{"A", "Foo", "Map<K>"}[r.Intn(3)]}
+		for j := 0; j < n; j++ {
+			st.elems = append(st.elems, genSig(r, 1, "ifsbIm"))
+			st.members = append(st.members, string(rune('a'+j)))
+		}
+		if r.Chance(20) {
+			st.elems, st.members = nil, nil
+		}
+		one := st.String()
+		def := one[strings.Index(one, ")")+1:]
+		extra := []string{def, "<B,b>", "<B>", "<>", "<B", "<B,b><C,c>", "<B,b"}[r.Intn(7)]
+		wrap := []string{"%s", "[%s]", "{s%s}", "(i%s)", "(%si)<W,p,q>"}[r.Intn(5)]
+		text := fmt.Sprintf(wrap, one+extra)
+		res := o.Do("P", "sig.parse "+hx([]byte(text)), true)
+		checkFixedPoint(o, text, res)
+		o.Count("case:second-definition")
+	}
 	// two signatures that use one struct name for different members (or for the same), used and parsed again
 	pairs := 150
 	if tier == "thorough" {
